@@ -4,12 +4,12 @@ PROP = dict(
     title="core/map and core/set behave like a dictionary and a set",
     lean_module="AbraProofs.Properties.C27",
     required_theorems=["C27_bucket_index_in_range", "C27_new_refines", "C27_try_get_refines", "C27_contains_refines",
-                       "C27_get_refines", "C27_fuel_enough_lookup", "C27_insert_refines", "C27_remove_refines",
+                       "C27_get_refines", "C27_fuel_enough_lookup", "C27_insert_refines", "C27_remove_refines", "C27_index_update_refines",
                        "C27_resize_refines", "C27_map_refines_dict", "C27_set_refines_set", "C27_fuel_enough"],
     harness_bin="c27",
     mismatch_is_violation=True,
     rule="5 directed histories on the keys MIN, MIN+1, -1, 0, MAX (the D9 replay: every operation incl. lookups/removes on the empty table) and "
-         "420 (quick) / 2100 (thorough) random histories of up to 60 / 400 operations (insert, m[k]=v, try_get, get, m[k], contains, remove, len; "
+         "420 (quick) / 2100 (thorough) random histories of up to 60 / 400 operations (insert, m[k]=v, m[k] += / -= / *= v through the map's Index impl (directly and inside a helper function), try_get, get, m[k], contains, remove, len; "
          "grow / churn / drain phases; key pools of 4, 12, 40, 160 keys so that histories range from dense update/remove traffic to 7 resizes "
          "and hundreds of slot reuses) over 7 key domains: extreme ints (MIN, MIN+1, -1, 0, 1, MAX, +-2^62 ...), ints congruent mod 64 (two residue "
          "classes), multiples of 1024 of both signs (collide at every table size reached), a user key type with constant hash 7, strings "
@@ -24,6 +24,7 @@ PROP = dict(
         "the driver's hash functions for int, string (FNV-1a with wrapping arithmetic), tuples (hash_combine) and the constant-hash user type are "
         "transliterations of the prelude's Hash impls; the theorems do not depend on them (any lawful hash)",
         "`count`, `old_len * 2` and slot indices are far below 2^63 (the model uses unbounded integers)",
+        "the arithmetic of `m[k] op= v` is a parameter f of the model (fun x => x op v); the generator keeps the values far from the 64-bit range so that C15's overflow error is not involved",
     ],
     assumptions=["the key type's Equal is an equivalence relation and equal keys hash equally (structure Lawful); Hash/Equal are pure functions"],
     design_ref="DESIGN.md §6 C27",
